@@ -38,7 +38,9 @@ class Node:
                 conns = list(range(min_conn, max_conn+1))
         else:
             raise ValueError('Either supply a list or a lower limit')
-        self.conns = sorted(conns) if conns is not None else None
+        # A set of allowed numbers: a value given twice (e.g. the 0 added for a conditional connector whose degree list
+        # already contains 0) would list every matrix with that amount twice
+        self.conns = sorted(set(conns)) if conns is not None else None
         self.min_conns = min_conns
 
     @property
